@@ -333,6 +333,9 @@ def _alias_faults(seed):
             yield f"{n1}<-{n2}", o1, raw[o2:o2 + w2]
 
 
+SPECIAL_SHARDS = 8
+
+
 def shards(tier):
     out = []
     for s in _seeds():
@@ -343,7 +346,8 @@ def shards(tier):
         out.append({"kind": "trunc", "seed": s["name"]})
         if any(f[4] == "table" for f in s["fields"]):
             out.append({"kind": "alias", "seed": s["name"]})
-    out.append({"kind": "special"})
+    for i in range(SPECIAL_SHARDS):
+        out.append({"kind": "special", "slice": [i, SPECIAL_SHARDS]})
     return out
 
 
@@ -442,7 +446,8 @@ def _execute(ctx, case, seed, data, subject, drv=None, kw=None, input_bytes=None
 def run_shard(shard, ctx):
     kind = shard["kind"]
     if kind == "special":
-        for c in _special_cases():
+        i, k = shard.get("slice", [0, 1])
+        for c in _special_cases()[i::k]:
             run_case(c, ctx)
         return
     seed = _seed(shard["seed"])
@@ -505,6 +510,13 @@ def _special_cases():
         out.append({"kind": "special", "what": "qcow2-l2-points-at", "target": tgt})
     out.append({"kind": "special", "what": "qcow2-snapshot-table-self"})
     out.append({"kind": "special", "what": "qcow2-bomb", "ratio": 4096})  # 64 KiB cluster -> 256 MiB
+    # a bomb in every L2 slot around the end of the virtual disk (last cluster, partial last cluster, the slack slot of the
+    # cluster that starts exactly at the end, the one after), cluster sizes below and above the stream buffer
+    for cb in (9, 12, 16):
+        for where in ("last", "partial-last", "at-end", "after-end"):
+            out.append({"kind": "special", "what": "qcow2-bomb-at-disk-end", "cb": cb, "where": where})
+    for kind in ("hosted", "cowd", "sesparse"):
+        out.append({"kind": "special", "what": "vmdk-many-grain-tables", "extent": kind})
     out.append({"kind": "special", "what": "vmdk-bomb", "ratio": 65536})  # 4 KiB grain -> 256 MiB
     for bm in ("alloc-and-zero", "all-ones", "unalloc-with-alloc-bits"):
         out.append({"kind": "special", "what": "qcow2-invalid-bitmap", "bitmap": bm})
@@ -605,6 +617,98 @@ def _run_special(case, ctx):
         nb = (host + len(bomb) - 1) // 512 - host // 512
         struct.pack_into(">Q", raw, f, (1 << 62) | (min(nb, 255) << x) | host)
         return _execute(ctx, case, _seed("qcow2.std"), bytes(raw), subject, drv_qcow2, {}, len(raw))
+    if what == "qcow2-bomb-at-disk-end":
+        cb, where = case["cb"], case["where"]
+        cs = 1 << cb
+        n = 3  # 3 clusters: not a multiple of the 8 KiB buffer for 512 B / 4 KiB clusters
+        states = ["N"] * n + ["U", "U"]
+        img, _ = BQ.build(states, [0, 1, 2, None, None], cb, 3, size=(n * cs - cs // 2) if where == "partial-last" else n * cs)
+        raw = bytearray(img.tobytes())
+        slot = {"last": n - 1, "partial-last": n - 1, "at-end": n, "after-end": n + 1}[where]
+        f = [x for x in img.fields if x[0] == "l2[0][0]"][0][1] + 8 * slot
+        x = 62 - (cb - 8)
+        host = (len(raw) + 511) // 512 * 512
+        bomb = BQ.raw_deflate(b"\0" * (32 << 20), 9)[: ((1 << (cb - 8)) - 1) * 512 + 511]  # as much as the descriptor can address
+        raw += b"\0" * (host - len(raw)) + bomb + b"\0" * 1024
+        nb = min((1 << (cb - 8)) - 1, (host + len(bomb) - 1) // 512 - host // 512)
+        struct.pack_into(">Q", raw, f, (1 << 62) | (nb << x) | host)
+
+        def drv(data):
+            from dissect.hypervisor.disk import qcow2 as Q
+
+            q = Q.QCow2(io.BytesIO(data))
+            got = 0
+            for pos in (0, max(0, q.size - 700), max(0, q.size - 1), (q.size // 8192) * 8192):
+                q.seek(pos)
+                got += len(q.read(A))
+            q.seek(0)
+            got += len(q.read())
+            return got
+
+        seed = _seed("qcow2.std")
+        ok = True
+        # memory bound of this case: nothing larger than a few clusters / buffers is ever needed
+        ctx.transitions += 1
+        ctx.states += 1
+        ctx.nontrivial += 1
+        with ctx.watch(case, 300):
+            outcome, steps, peak = _run_metered(drv, bytes(raw), {}, 2_000_000)
+        limit = (4 << 20) + 64 * cs
+        if outcome in ("steps", "memory") or peak > limit:
+            ctx.violation(case, {"subject": subject, "kind": "inflated-beyond-the-cluster" if peak > limit else outcome},
+                          {"peak_bytes": peak, "limit": limit, "steps": steps, "cluster_size": cs, "input_bytes": len(raw)})
+            return False
+        ctx.outcome("returned" if outcome == "returned" else "raised")
+        ctx.extra[outcome] += 1
+        return ok
+    if what == "vmdk-many-grain-tables":
+        # thousands of grain directory entries whose tables overlap in the file one sector apart; one sector is read from
+        # the range of every table: what is retained must not grow with the number of tables touched
+        ngd, kind = 2048, case["extent"]
+        if kind == "hosted":
+            gd_sector, gt0, ngte, grain = 1, 40, 512, 8
+            hdr = BM._hosted_header(1, 3, ngd * ngte * grain, grain, 0, 0, ngte, 0, gd_sector, gt0 + ngd + 8, 0)
+            raw = bytearray((gt0 + ngd + 16) * 512)
+            raw[0:len(hdr)] = hdr
+            struct.pack_into(f"<{ngd}I", raw, gd_sector * 512, *[gt0 + i for i in range(ngd)])
+        elif kind == "cowd":
+            ngte, grain, gd_sector, gt0 = 4096, 1, 4, 40
+            hdr = struct.pack("<4sIIIIIII", b"COWD", 1, 3, ngd * ngte * grain, grain, gd_sector, ngd, gt0 + ngd + 40)
+            raw = bytearray((gt0 + ngd + 64) * 512)
+            raw[0:len(hdr)] = hdr
+            struct.pack_into(f"<{ngd}I", raw, gd_sector * 512, *[gt0 + i for i in range(ngd)])
+        else:
+            # SE-sparse tables cannot overlap (the directory names table indices): 4096 real tables of 512 entries
+            ngte, grain = 512, 8
+            img = BM.build_sesparse([HOLE] * 4, [None] * 4, grain, 8, ngd * ngte * grain, 0, ngd * ngte, elide_empty_gt=False)
+            raw = bytearray(img.tobytes())
+        cover = ngte * grain * 512
+
+        def drv(data):
+            from dissect.hypervisor.disk.vmdk import VMDK
+
+            v = VMDK(io.BytesIO(data))
+            got = 0
+            n = min(ngd, v.size // cover)
+            for i in range(n):
+                got += len(v.read_sectors(i * (cover // 512) + (i % 7), 1))
+            return got
+
+        ctx.transitions += 1
+        ctx.states += 1
+        ctx.nontrivial += 1
+        with ctx.watch(case, 600):
+            outcome, steps, peak = _run_metered(drv, bytes(raw), {}, 40_000_000)
+        # a reader may keep a bounded number of parsed tables (the library keeps 128): 160 tables of ngte boxed integers
+        limit = (24 << 20) + len(raw) + 160 * ngte * 48
+        ctx.maxi("many-tables.peak_bytes." + kind, peak)
+        if outcome != "returned" or peak > limit:
+            ctx.violation(case, {"subject": subject, "kind": "memory-grows-with-tables-touched" if outcome == "returned" else outcome},
+                          {"peak_bytes": peak, "limit": limit, "steps": steps, "tables": ngd, "input_bytes": len(raw)})
+            return False
+        ctx.outcome("returned")
+        ctx.extra[outcome] += 1
+        return True
     if what in ("vmdk-bomb-x-header-fields", "qcow2-bomb-x-header-fields"):
         # a bomb combined with every single fault of every header field (two cooperating sites: the limit and its source)
         if what.startswith("vmdk"):
